@@ -1,6 +1,3 @@
 SPECIFICATION Spec
-CONSTANTS
-  Alphabet = {45, 48, 49, 57, 46}
-  MaxLen = 4
 INVARIANT Classification RowLaws AgreesWithArithmetic SameValueForms
 CHECK_DEADLOCK FALSE
